@@ -242,8 +242,8 @@ static int n_deferred_pending;
 static void *saved_rpc[MAXREQ]; static struct creq *saved_cr[MAXREQ]; static int n_saved;
 
 /* hooks */
-enum { HB_NONE, HB_CONTINUE, HB_TERMINATE, HB_PAUSE_CONT, HB_PAUSE_TERM, HB_PAUSE_CONT_LATE, HB_PAUSE_TERM_LATE, N_HB };
-static const char *const hb_name[N_HB] = { "-", "cont", "TERM", "pause>cont", "pause>TERM", "pause2s>cont", "pause2s>TERM" };
+enum { HB_NONE, HB_CONTINUE, HB_TERMINATE, HB_PAUSE_CONT, HB_PAUSE_TERM, HB_PAUSE_CONT_LATE, HB_PAUSE_TERM_LATE, /* -P hb=8: */ HB_PAUSE_CONT_MID, N_HB };
+static const char *const hb_name[N_HB] = { "-", "cont", "TERM", "pause>cont", "pause>TERM", "pause2s>cont", "pause2s>TERM", "pause0.5s>cont" };
 enum { H_CO, H_CI, H_SI, H_SO, N_HOOK };
 static const char *const hook_name[N_HOOK] = { "client-out", "client-in", "server-in", "server-out" };
 static int hook_beh[N_HOOK], hook_calls[N_HOOK];
@@ -360,9 +360,9 @@ static int hook_fn(void *ctx, struct evhttp_request *req, struct evbuffer *evbuf
 	struct deferred *d = deferred_new();
 	if (!d) return EVRPC_CONTINUE;
 	int late = b == HB_PAUSE_CONT_LATE || b == HB_PAUSE_TERM_LATE;
-	struct timeval tv = { late ? 2 : 0, 0 };
+	struct timeval tv = { late ? 2 : 0, b == HB_PAUSE_CONT_MID ? 500000 : 0 };
 	d->what = 1; d->vbase = pos <= H_CI ? (void *)pool : (void *)rpcbase; d->ctx = ctx;
-	d->res = (b == HB_PAUSE_CONT || b == HB_PAUSE_CONT_LATE) ? EVRPC_CONTINUE : EVRPC_TERMINATE;
+	d->res = (b == HB_PAUSE_CONT || b == HB_PAUSE_CONT_LATE || b == HB_PAUSE_CONT_MID) ? EVRPC_CONTINUE : EVRPC_TERMINATE;
 	evtimer_assign(&d->ev, base, deferred_cb, d);
 	evtimer_add(&d->ev, &tv);
 	MC_COUNT("hook_pauses");
@@ -523,7 +523,9 @@ static void final_checks(void)
 		if (cr->handler_runs > 1) mc_fail("C43/handler-ran-twice", "handler ran %d times for one request", cr->handler_runs);
 		if (cr->cb_count == 1 && cr->status != EVRPC_STATUS_ERR_NONE && !cr->may_fail) {
 			/* nothing that the property lists as a reason for an error status happened */
-			int handler_caused = cr->handler_runs && (!cr->replied || cr->when >= 2);   /* incomplete reply, or reply after the timeout / never */
+			/* time the server side holds the request: 0.5 s pauses in its hooks plus the handler's own delay */
+			int held_ms = 500 * (hook_beh[H_SI] == HB_PAUSE_CONT_MID) + 500 * (hook_beh[H_SO] == HB_PAUSE_CONT_MID) + (cr->when == 1 ? 500 : 0);
+			int handler_caused = cr->handler_runs && (!cr->replied || cr->when >= 2 || held_ms >= 1000 * POOL_TIMEOUT_S);   /* incomplete reply, or reply at/after the timeout / never */
 			if (!handler_caused) mc_fail("C43/error-without-cause", "request %d completed with error status %d although no connection failure, timeout, hook abort or bad payload occurred", i, cr->status);
 		} else if (cr->cb_count == 1 && cr->status == EVRPC_STATUS_ERR_NONE) MC_COUNT("completions_with_reply");
 	}
@@ -564,7 +566,7 @@ static void scenario_e2e(void)
 	int nconn = 1 + mc_choose(2, varcost, "connections");
 	/* hooks: each configured position is one deviation */
 	for (int i = 0; i < N_HOOK; i++) {
-		hook_beh[i] = mc_choose(N_HB, 1, hook_name[i]);
+		hook_beh[i] = mc_choose(mc_param("hb", 7) >= N_HB ? N_HB : 7, 1, hook_name[i]);
 		if (hook_beh[i] == HB_TERMINATE || hook_beh[i] == HB_PAUSE_TERM || hook_beh[i] == HB_PAUSE_TERM_LATE) any_terminate = 1;
 		if (hook_beh[i]) {
 			void *h = evrpc_add_hook(i <= H_CI ? (void *)pool : (void *)rpcbase, (i == H_CO || i == H_SO) ? EVRPC_OUTPUT : EVRPC_INPUT, hook_fn, (void *)(intptr_t)i);
@@ -606,7 +608,12 @@ static void scenario_e2e(void)
 	for (int i = 0; i < nreq; i++) {
 		struct creq *cr = &creq[i];
 		if (any_terminate || server_gone || kill_at || cr->kind == RPC_BOGUS) cr->may_fail = 1;
-		if (hook_beh[H_SI] >= HB_PAUSE_CONT_LATE || hook_beh[H_SO] >= HB_PAUSE_CONT_LATE) cr->may_fail = 1;   /* server holds the request past the pool timeout */
+		/* While a client-output hook has a request paused, the request is not yet on its connection, so
+		 * evrpc_pool_find_connection() hands the same "idle" connection to the next request as well: both end
+		 * up queued on one connection with their pool timeouts running from the resume.  The one behind can
+		 * then time out because of the other's delay — a timeout in the property's sense. */
+		if (second == 1 && hook_beh[H_CO] >= HB_PAUSE_CONT) cr->may_fail = 1;
+		if (hook_beh[H_SI] == HB_PAUSE_CONT_LATE || hook_beh[H_SI] == HB_PAUSE_TERM_LATE || hook_beh[H_SO] == HB_PAUSE_CONT_LATE || hook_beh[H_SO] == HB_PAUSE_TERM_LATE) cr->may_fail = 1;   /* server holds the request past the pool timeout */
 	}
 	issue(&creq[0]);
 	if (second == 1) issue(&creq[1]);
